@@ -6,13 +6,22 @@ import simnet
 
 def run(chk):
     quick = chk.tier == "quick"
-    chk.rule = ("sequential scripts over 3-4 whole networks on the fabric with random (primary, optional alternate) names from {10,20,30}; every dial's result is compared with "
+    chk.rule = ("the whole matrix dialer (primary, alternate) x listener (primary, alternate) over names {10,20,30} with plain and identity-naming dials in both directions, then sequential scripts over 3-4 whole networks on the fabric with random (primary, optional alternate) names; every dial's result is compared with "
                 "NetModel.v (dialer's primary must be accepted by the listener); adversary scenarios choose the claimed name (SNI) and the certificate name independently; "
                 "distinct = scenario; non-trivial = all")
     if not chk.prepare():
         return
     w = dict(fault=0.0, restart=0.03, known=0.02, pin=0.1, names=True)
-    recs = simnet.run_netscripts(chk, 30 if quick else 400, [3, 4], lambda r: r.randrange(6, 14), w, "fabric:names")
+    # the whole name matrix, in every run: dialer (primary, alternate) x listener (primary, alternate) over two primaries and
+    # three alternates, each pair dialed plainly and with the listener's identity named, in both directions
+    fixed = []
+    alts = lambda p: [None] + [x for x in (10, 20, 30) if x != p]
+    for p in (10, 20):
+        for a in alts(p):
+            for q in (10, 20):
+                for b in alts(q):
+                    fixed.append(({1: (p, a, None), 2: (q, b, None)}, [("D", 1, 2), ("X", 1, 2), ("D", 1, 2, 2), ("X", 2, 1), ("D", 2, 1, 1), ("X", 2, 1), ("D", 2, 1), ("Q",)]))
+    recs = simnet.run_netscripts(chk, 30 if quick else 400, [3, 4], lambda r: r.randrange(6, 14), w, "fabric:names", fixed=fixed)
     for rec in recs:
         nodes, ops, res = rec["nodes"], rec["ops"], rec["res"]
         for (oi, pos_res, ppos, rpcs) in rec["marks"]:
